@@ -159,6 +159,8 @@ func ruleTabPriority(c *Ctx, r *R) {
 			ret.Args[0].Args[0].Eq(tIndex(args[0], tVar(nil, "I"))) && ret.Args[1].Args[0].Eq(tIndex(args[0], tVar(nil, "J"))) {
 			var rps []*State
 			var notHoisted []string
+			varLifted := false
+			_ = varLifted
 			haveRank := false
 			if rfl := c.localFuncLit(fd, strings.TrimPrefix(ret.Args[0].Name, "var.")); strings.HasPrefix(ret.Args[0].Name, "var.") && rfl != nil && len(rfl.Type.Params.List) == 1 && len(rfl.Type.Params.List[0].Names) == 1 {
 				rin := newInterp(c)
@@ -191,7 +193,12 @@ func ruleTabPriority(c *Ctx, r *R) {
 					if base {
 						// a path that keeps the plain priority may single out struct and interface
 						// definitions only: every other definition of a `type` is resolved at compile time
-						for _, m := range regexp.MustCompile(`E\.Tokens\[1\]\.Symbol == "([^"]+)"`).FindAllStringSubmatch(condStrings(rp), -1) {
+						// (conditions that belong to the refinement of another kind — the value-less var — do not count)
+						typeConds := condStrings(rp)
+						if i := strings.Index(typeConds, `(E.Symbol == "var")`); i >= 0 {
+							typeConds = typeConds[:i]
+						}
+						for _, m := range regexp.MustCompile(`E\.Tokens\[1\]\.Symbol == "([^"]+)"`).FindAllStringSubmatch(typeConds, -1) {
 							if m[1] != "struct" && m[1] != "interface" {
 								notHoisted = append(notHoisted, m[1])
 							}
@@ -213,6 +220,22 @@ func ruleTabPriority(c *Ctx, r *R) {
 						okAll = false
 						continue
 					}
+					// a declaration without an initialiser (var x T) may be lifted anywhere between the
+					// statements and the types: zeroing a typed slot depends on its type only, and an
+					// initialiser that comes earlier in the source may call a function that assigns it
+					if vm := regexp.MustCompile(`\["(\w+)"\] ([+-])(\d+)>$`).FindStringSubmatch(rs); vm != nil && strings.Contains(condStrings(rp), `(E.Symbol == "var")`) && !strings.Contains(condStrings(rp), `!((((E.Symbol == "var")`) {
+						var k int64
+						fmt.Sscan(vm[3], &k)
+						if vm[2] == "-" {
+							k = -k
+						}
+						abs := prio[vm[1]] + k
+						noInit := strings.Contains(condStrings(rp), "len(E.Tokens[1].Tokens) == 0")
+						r.check(noInit && abs > 0 && abs < prio["type"], "value-less var hoisted", c.Pos(fl), fmt.Sprintf("var declarations without an initialiser rank %d: above the statements, below the types", abs),
+							fmt.Sprintf("treeSort lifts some var declarations to rank %d on a condition that is not `no initialiser` or outside (0, %d): an initialised var would be moved past code it depends on, or a typed zero would be set before its type exists", abs, prio["type"]))
+						varLifted = true
+						continue
+					}
 					// priority["kind"] + k under E.Symbol == "kind"
 					m := regexp.MustCompile(`\["(\w+)"\] \+(\d+)>$`).FindStringSubmatch(rs)
 					if m == nil || !strings.Contains(condStrings(rp), `(E.Symbol == "`+m[1]+`")`) {
@@ -226,6 +249,8 @@ func ruleTabPriority(c *Ctx, r *R) {
 				if okAll {
 					good = true
 				}
+				r.check(varLifted, "typed zero before initialisers", c.Pos(fl), "var declarations without an initialiser are lifted above the statements",
+					"treeSort leaves `var x T` (no initialiser) in source order among the initialised declarations: an initialiser that comes earlier — `var cache = setup()` where setup assigns ratio, declared further down as `var ratio float64` — stores into a slot that has no type yet, so ratio becomes an int32 (ratio/2 is 0, a uint8 counter does not wrap), and the later typed zero is skipped because the slot is no longer nil")
 				r.check(len(notHoisted) == 0, "every non-struct type hoisted", c.Pos(fl), "only struct and interface definitions keep the plain priority",
 					"treeSort's rank leaves type declarations defined from "+strings.Join(notHoisted, ", ")+" with the struct types: `type Shade Small` (a type defined from a name) declared after a struct that uses it as a field type is compiled too late — the field becomes a struct type `Shade` (zero value nil, stores not converted)")
 			}
